@@ -189,14 +189,15 @@ func main() {
 		}
 		run.Finish()
 	}
+	run.Shard(4)
 	if *only == "all" || *only == "pure" {
-		sim.Parallel(run.N(100_000, 8_000_000), 16, func(i int) { pureCase(run, i) })
+		sim.ParallelCases(run.N(100_000, 8_000_000), 16, func(i int) { pureCase(run, i) })
 	}
-	if *only == "all" || *only == "tss" {
+	if (*only == "all" || *only == "tss") && run.Once() {
 		runTSS(run, seq(run.N(6_000, 400_000)))
 	}
 	if *only == "all" || *only == "chain" {
-		sim.Parallel(run.N(64, 4_000), 16, func(i int) { chainCase(run, i) })
+		sim.ParallelCases(run.N(64, 4_000), 16, func(i int) { chainCase(run, i) })
 	}
 
 	if *only == "all" || *only == "live" {
